@@ -38,6 +38,9 @@ CHECKS = {
  "C14": dict(cat="model_checking", eng="e6", tech="stateless model checking of real threads under a controlled scheduler at lock granularity: DFS over choice sequences with iterated preemption bound, two RwLock priority policies",
    text="Real threads run the real read-only methods and stream I/O one at a time under a scheduler that makes every acquisition request of the crate's single RwLock (cfg(cfb_verif) shim) a scheduling point and owns a model of the lock under a reader-preferring and a writer-preferring policy (std leaves the policy unspecified; Linux's is writer-preferring). For every driver configuration (writer handle-op sequence x reader assignment of 1-3 threads x policy) all schedules are explored depth-first, unbounded where that completes within the cap, otherwise up to the reported preemption bound. Oracles: no deadlock, no panic, each reader result equals the sequential result after a whole number of writer handle calls within the call's window (sequential results computed by running the real code single-threaded).",
    note="Sufficient because all shared state is behind the one lock (no atomics besides Arc counts). Larger configurations are complete only up to the preemption bound recorded in the evidence.", ref="4 E6, 5"),
+ "C07": dict(cat="model_checking", eng="e1h", tech="exhaustive enumeration of action sequences on held handles interleaved with structural mutations, from every reachable sibling-tree shape / slot assignment, against the reference model",
+   text="Start states are all distinct images the library can produce by creating and removing 3-4 sibling streams (every sibling-tree shape and directory-slot assignment, found by BFS on images); handles are opened on every choice of one or two streams; then every action sequence up to depth 3-4 over handle writes, appends, flushes, set_len, read-all and structural operations on other entries (remove, overwrite, create stream, create storage) is run. Handle results are checked at each call; at the forced quiescent end the whole file is compared with the model, judged by the independent checker and parser, and reopened strictly.",
+   note="A held stream is never removed or overwritten through another path. Trusted: reference model, independent parser.", ref="4 E1h"),
 }
 
 NOT_YET = {
@@ -72,6 +75,7 @@ def main():
             "add_only": True,
         },
         "engines": [
+            {"name": "e1h", "path": "/verif/harness/src/e1h.rs", "serves_properties": ["C07"], "kind_free_text": "handle/structure interleaving enumeration from all reachable directory shapes"},
             {"name": "e6", "path": "/verif/harness/src/e6.rs", "serves_properties": ["C14"], "kind_free_text": "controlled scheduler (baton passing) over the instrumented RwLock; preemption-bounded DFS of schedules"},
             {"name": "e4", "path": "/verif/harness/src/e4.rs", "serves_properties": ["C12", "C13", "C18"], "kind_free_text": "fault / short-count / interruption enumeration at every underlying call index on the generic backend"},
             {"name": "e3", "path": "/verif/harness/src/e3.rs", "serves_properties": ["C06"], "kind_free_text": "exhaustive call-sequence enumeration on one stream handle"},
